@@ -62,3 +62,14 @@ Fixpoint isize (i : iset) : nat :=
   | IPrefix i _ | IDropPrefix i _ => S (isize i)
   end.
 Definition max_exports (W : world) : nat := fold_right Nat.max 0 (map (fun le => length (snd le)) W).
+
+(** an <export spec> of a define-library form: a name, or (rename internal external) *)
+Inductive export_spec : Type := EName (n : name) | ERename (internal external : name).
+Definition enc_espec (e : export_spec) : sx :=
+  match e with
+  | EName n => Sym n
+  | ERename a b => list_sx [Sym "rename"; Sym a; Sym b]
+  end.
+(** the (external, internal) entry of the export map *)
+Definition espec_pair (e : export_spec) : name * name :=
+  match e with EName n => (n, n) | ERename a b => (b, a) end.
